@@ -41,8 +41,8 @@ SYNTHETIC = {
         ["doc", "swap", "fenced", "look"], ["`a`", "``a`b``", "aabb", "aa", "`a`;aabb; x\n y", " x\n y\n y;", "``a`", "aab", " x\n  y", ";;", "", "bb!", "bb", "c.", "cd.", "a"]),
     "synthetic:keywords": (
         'WHITESPACE = _{ " " }\nprog = { SOI ~ stmt* ~ EOI }\nstmt = { block | cond | word }\nblock = { ^"begin" ~ body ~ ^"end" }\nbody = ${ (!^"end" ~ ANY)* }\n'
-        'cond = { ^"if" ~ #c = word ~ (^"then" ~ #t = (word)+)? ~ ";" }\npairx = { #p = (word ~ word?) ~ ":" ~ #q = (word ~ &word ~ word | word) ~ ";" }\nword = @{ !(^"begin" | ^"end" | ^"if" | ^"then") ~ ASCII_ALPHA{1,3} ~ ASCII_DIGIT{,2} }\n',
-        ["prog", "block", "cond", "pairx"], ["a b:c;", "a:b c;", "a:b;", "a b:c", "begin x End", "BEGIN end", "begin en END", "if a then b c;", "IF ab1 ;", "if a then;", "begin x", "if then;", "abc d12 e", "abcd", "begin if End", ""]),
+        'cond = { ^"if" ~ #c = word ~ (^"then" ~ #t = (word)+)? ~ ";" }\npairx = { #p = (word ~ word?) ~ ":" ~ #q = (word ~ &word ~ word | word) ~ ";" }\nflags = { ("+" | "-")* ~ #s = sil ~ (\'0\'..\'9\' | "_")+ ~ ";" }\nsil = _{ word }\nword = @{ !(^"begin" | ^"end" | ^"if" | ^"then") ~ ASCII_ALPHA{1,3} ~ ASCII_DIGIT{,2} }\n',
+        ["prog", "block", "cond", "pairx", "flags"], ["+ -ab 1 _;", "+-a1;", "ab 1;", "+ - ;", "a b:c;", "a:b c;", "a:b;", "a b:c", "begin x End", "BEGIN end", "begin en END", "if a then b c;", "IF ab1 ;", "if a then;", "begin x", "if then;", "abc d12 e", "abcd", "begin if End", ""]),
 }
 EXAMPLE_FILES = {
     "tests/grammars/json.pest": ["tests/examples/example.json"], "tests/grammars/toml.pest": ["tests/examples/example.toml"], "tests/grammars/http.pest": ["tests/examples/example.http"],
@@ -94,6 +94,11 @@ def sites_of(text):
             ops = [k for k in kids if k[0].endswith("_operator") or k[0].startswith("repeat_")]
             node = [k for k in kids if k not in ops and k[0] not in ("tag_id",)]
             if ops and node:
+                out.append(("term", node[0][1], node[-1][2], None))
+        else:
+            # a tagged term: the operand alone (#t = x -> #t = (x)); the tag stays where it is
+            node = [k for k in kids if k[0] not in ("tag_id", "assignment_operator") and not (k[0].endswith("_operator") or k[0].startswith("repeat_"))]
+            if node:
                 out.append(("term", node[0][1], node[-1][2], None))
         for k in kids:
             if k[0] == "expression":
@@ -353,7 +358,7 @@ def run(tier: str) -> int:
         "evaluations": agg["evaluations"],
         "distinct_nontrivial": agg["nontrivial"],
         "rule": "for each bundled grammar (tests: json, toml, sql, http, lists; examples: json, calculator x2, jsonpath, ini, csv) and two small grammars written for this check "
-                "(stack operations that replace an entry, fences and indentation; case-insensitive keywords and stops, the skip idiom, tags, bounded repetitions, atomic and compound-atomic rules, implicit whitespace) every site of the meta-grammar's parse tree of the file - every untagged term (as a whole, and its operand alone when it carries prefix or postfix operators), every rule-body / parenthesised / PUSH expression, "
+                "(stack operations that replace an entry, fences and indentation; case-insensitive keywords and stops, the skip idiom, tags, bounded repetitions, atomic and compound-atomic rules, implicit whitespace) every site of the meta-grammar's parse tree of the file - every untagged term (as a whole, and its operand alone when it carries prefix or postfix operators; of a tagged term only the operand), every rule-body / parenthesised / PUSH expression, "
                 "every run of >= 3 sequence terms or alternatives - x the rewrite kinds: (e); (e) | (e); ((e) ~ NEVER) | (e); (!(e) ~ NEVER) | (e); extraction into a fresh silent rule; every re-association split of ~ and | runs. "
                 "Combinations: (a) nested - a second rewrite applied to the result of a first one at the same site, every ordered pair of kinds, on the smaller grammars (quick: csv, ini, lists and the two synthetic grammars with three kinds; thorough: also http, both calculators, both json with five kinds); "
                 "(b) at once - one kind applied simultaneously to every literal (string, insensitive string, character range) of the file, all files; (c) thorough: every two nearby non-overlapping sites both rewritten (six kind pairs). "
